@@ -175,6 +175,20 @@ def gen(c, chunkings):
         bad[-1 - rng.randrange(0, 16)] ^= 1 << rng.randrange(8)
         add(f="cbc_dec", api=rng.choice(["oneshot", "stream"]), msg=bytes(bad), **p)
         add(f="cbc_dec", api="oneshot", msg=good[:-rng.randrange(1, 16)], **p)
+    # plaintexts whose padding is not uniform: every padding length 2..16 with one padding byte off (first / middle / last but one), and padding values 0 and 17
+    for cipher in ("sm4", "aes"):
+        for v in range(2, 17):
+            for j in sorted({0, v // 2, v - 2}):
+                p = params("cbc_dec", cipher, 16)
+                body = rb(rng.choice([0, 16, 32]) + 16 - v)
+                pad = bytearray([v]) * v
+                pad[j] ^= 0x01 if (v + j) % 2 else 0x80
+                ctb = K.cbc_enc(T, cipher, p["key"], p["iv"], body + bytes(pad))
+                for api in ("oneshot", "stream"):
+                    add(f="cbc_dec", api=api, msg=ctb, note="badpad_v%d_j%d" % (v, j), **(dict(p, chunks="%d" % (len(ctb) // 2)) if api == "stream" else p))
+        for v in (0, 17, 32, 255):
+            p = params("cbc_dec", cipher, 16)
+            add(f="cbc_dec", api="oneshot", msg=K.cbc_enc(T, cipher, p["key"], p["iv"], rb(16) + bytes([v]) * 16), note="padvalue%d" % v, **p)
     return out
 
 
